@@ -85,8 +85,73 @@ pub fn t(id: u32) -> String {
     format!("t{}", id)
 }
 
+/// Variables that occur under an inverse (challenges y, u_j, ...).
+fn inverted_vars(a: &arena::Arena, roots: &[u32]) -> std::collections::HashSet<u32> {
+    let mut late = std::collections::HashSet::new();
+    for t in a.reach(roots) {
+        if let arena::Term::Inv(x) = &a.terms[t as usize] {
+            for v in a.reach(&[*x]) {
+                if let arena::Term::Var(_) = &a.terms[v as usize] {
+                    late.insert(v);
+                }
+            }
+        }
+    }
+    late
+}
+
 /// Build an identity group: every `(name, lhs, rhs)` must hold for all values.
+///
+/// Pre-processing (pure ring rewriting, no decision): each difference lhs - rhs is written as a
+/// Laurent polynomial in the variables that occur under an inverse; Laurent monomials are linearly
+/// independent over the polynomial ring in the other variables, so the identity holds (wherever the
+/// inverses exist) iff every coefficient -- an inverse-free polynomial -- is identically zero.  The
+/// solver decides those coefficient identities.  If the expansion is not possible the original pairs
+/// with inverse side-constraints are used.
 pub fn identity_group(name: &str, form: &str, claim: &str, items: Vec<(String, u32, u32)>) -> Group {
+    let expanded: Option<Vec<(String, u32, u32)>> = arena::with(|a| {
+        let mut roots = vec![];
+        for (_, l, r) in items.iter() {
+            if l != r {
+                roots.push(*l);
+                roots.push(*r);
+            }
+        }
+        let late = inverted_vars(a, &roots);
+        if late.is_empty() {
+            return None;
+        }
+        let lit0 = a.lit0;
+        let mut ex = crate::expand::Expander::new(a, late);
+        let mut out = vec![];
+        for (n, l, r) in items.iter() {
+            if l == r {
+                out.push((n.clone(), *l, *r));
+                continue;
+            }
+            let d = ex.a.sub(*l, *r);
+            let p = match ex.expand(d) {
+                Ok(p) => p,
+                Err(_) => return None,
+            };
+            if p.is_empty() {
+                out.push((n.clone(), lit0, lit0));
+            }
+            for (m, c) in p.iter() {
+                out.push((format!("{} @ {}", n, ex.show_mono(m)), *c, lit0));
+            }
+        }
+        Some(out)
+    });
+    let n_orig = items.len();
+    let mut g = identity_group_raw(name, form, claim, expanded.clone().unwrap_or(items));
+    if expanded.is_some() {
+        g.claim = format!("{} [{} identities split into inverse-free coefficient identities by Laurent expansion in the inverted challenges]", g.claim, n_orig);
+    }
+    g
+}
+
+pub fn identity_group_raw(name: &str, form: &str, claim: &str, items: Vec<(String, u32, u32)>) -> Group {
     arena::with(|a| {
         // trivially identical pairs are dropped (hash-consing already proved them equal)
         let kept: Vec<&(String, u32, u32)> = items.iter().filter(|(_, l, r)| l != r).collect();
